@@ -214,9 +214,8 @@ def run(chk):
         if led.get('manager_started', 0) != led.get('manager_stopped', 0) and not sc['pool'].get('enable_insights'):
             chk.violation('progress_manager_stopped', case, {'started': led.get('manager_started'), 'stopped': led.get('manager_stopped')}, 'the tqdm manager this pool started is stopped',
                           input_class='manager_' + sc['cause'])
-    if chk.tier == 'thorough':
-        from harness import realproc
-        realproc.leak_suite(chk)
+    from harness import realproc
+    realproc.leak_suite(chk, quick=chk.tier != 'thorough')
     chk.assumptions += ['descriptors and OS processes are runtime objects: under DetSim they are the simulated primitives\' ledger; the real-process tier observes /proc (thorough)',
                         'a helper that ends by itself within 2 virtual seconds after exit is not counted as leaked',
                         'GC-time release and interpreter-level helpers (resource tracker, fork server) are excluded by the property']
